@@ -77,3 +77,27 @@ def doc_hash_table():
             rows[cur] = L
         i += 1
     return rows
+
+
+def crypt_data_field_geps(m):
+    """all typed address computations into struct crypt_data: list of (Function, Inst, field)"""
+    out = []
+    for F in m.functions.values():
+        for I in F.all_insts():
+            if I.op == "getelementptr":
+                for step in I.d.get("path", []):
+                    if step[0] == "s" and step[1] == "struct.crypt_data":
+                        out.append((F, I, step[2]))
+    return out
+
+
+def uses_closure(F, vid):
+    """all instructions using a value derived (gep/bitcast/phi/select/ptrtoint arithmetic) from vid"""
+    der = F.based_on([vid])
+    seen = []
+    for v in der:
+        for U in F.users(v):
+            if U.id in der and U.op in ("getelementptr", "bitcast", "phi", "select", "ptrtoint", "inttoptr", "add", "sub", "and"):
+                continue
+            seen.append((v, U))
+    return der, seen
